@@ -11,7 +11,7 @@
 From Coq Require Import List ZArith NArith Bool.
 From Tele Require Import Gen.Consts Gen.GoFns Model.CounterConc Proofs.CounterWord Proofs.CounterInv Proofs.CounterThms Proofs.GoFnsCounter.
 From Tele Require Import Model.Register Proofs.RegisterFacts Proofs.CounterFault Proofs.CounterProgress Proofs.CounterMono.
-From Tele Require Import Model.CounterMulti Proofs.CounterMultiFacts.
+From Tele Require Import Model.CounterMulti Proofs.CounterMultiFacts Proofs.CounterMultiCtl.
 Import ListNotations.
 Open Scope Z_scope.
 
@@ -389,3 +389,99 @@ Theorem C03_multi_entry_through_closed_mapping_refuted :
   map (fun c => (c_cells c, c_faults c)) (ms_ctrs (fst st)) = [([6; 1], 2)].
 Proof. vm_compute. repeat split; reflexivity. Qed.
 Print Assumptions C03_multi_entry_through_closed_mapping_refuted.
+
+(* ---- the self-check flag is never set (PARTIAL: systems in which no lookup
+   extends the file) ----
+   `nogrow ms0 ts0`: the file is not full and every rotation opens a file with
+   room (changerM NewFile), and the shared part of the control invariant holds
+   initially (one c.next flag per counter; the registration list duplicate-free
+   and made of claimed counters of this file; one cell per file for every
+   counter).  For these systems - they include the registration race of
+   f518e0b: any number of first Adds, several goroutines per fresh counter,
+   racing with any number of rotations - the control invariant `GI` (where the
+   embedded threads' program points are when the walk visits them, list lengths,
+   the focus on a claimed counter, quiet embedded threads on return, ONE linker
+   per claimed counter hence a duplicate-free list) holds initially and is
+   preserved by every step, so NO schedule sets ms_chk, and none sets ms_bad
+   either: the multi theorems hold without any hypothesis on the flags.
+   Missing for the full statement: runs in which a lookup extends the file
+   (changerM FullFile or an initially full file: the nested walk, the embedded
+   `changer SameFile` threads, the own counter's G program points); there
+   ms_chk = false remains a hypothesis that the lock-step suite tests. *)
+Theorem C03_multi_control_invariant_partial : forall ms0 ts0 sched, mgood ms0 ts0 -> nogrow ms0 ts0 ->
+  GI (mrun sched (ms0, ts0)).
+Proof. exact multi_control_invariant. Qed.
+Print Assumptions C03_multi_control_invariant_partial.
+
+Theorem C03_multi_flags_clear_partial : forall ms0 ts0 sched, mgood ms0 ts0 -> nogrow ms0 ts0 ->
+  ms_chk (fst (mrun sched (ms0, ts0))) = false /\ ms_bad (fst (mrun sched (ms0, ts0))) = false.
+Proof. exact multi_flags_clear. Qed.
+Print Assumptions C03_multi_flags_clear_partial.
+
+Theorem C03_multi_step_projects_partial : forall ms0 ts0 sched k i, mgood ms0 ts0 -> nogrow ms0 ts0 ->
+  (k < length (ms_ctrs ms0))%nat ->
+  xstep (memn k (ms_list (fst (mrun sched (ms0, ts0))))) (sproj k (mrun sched (ms0, ts0)))
+        (sproj k (mstep (mrun sched (ms0, ts0)) i)).
+Proof. exact multi_step_projects_nogrow. Qed.
+Print Assumptions C03_multi_step_projects_partial.
+
+Theorem C03_multi_invariant_partial : forall ms0 ts0 sched k, mgood ms0 ts0 -> reg_init ms0 -> nogrow ms0 ts0 ->
+  (k < length (ms_ctrs ms0))%nat ->
+  Inv (total_k k ms0 ts0) (sproj k (mrun sched (ms0, ts0))) /\
+  Forall (fun t => done_ok t = true) (snd (mrun sched (ms0, ts0))).
+Proof. exact multi_inv_nogrow. Qed.
+Print Assumptions C03_multi_invariant_partial.
+
+Theorem C03_multi_upper_bound_partial : forall ms0 ts0 sched k, mgood ms0 ts0 -> reg_init ms0 -> nogrow ms0 ts0 ->
+  let '(ms, ts) := mrun sched (ms0, ts0) in
+  (k < length (ms_ctrs ms0))%nat ->
+  persisted (proj k ms) + w_extra (c_word (getc ms k))
+  <= persisted (proj k ms0) + w_extra (c_word (getc ms0 k)) + (sumf unbegun (tsproj k ts0) - sumf unbegun (tsproj k ts)).
+Proof. exact multi_upper_bound_nogrow. Qed.
+Print Assumptions C03_multi_upper_bound_partial.
+
+Theorem C03_multi_exact_at_quiescence_partial : forall ms0 ts0 sched k, mgood ms0 ts0 -> reg_init ms0 -> nogrow ms0 ts0 ->
+  let '(ms, ts) := mrun sched (ms0, ts0) in
+  (k < length (ms_ctrs ms0))%nat -> m_all_done ts = true -> c_sat (getc ms k) = false ->
+  persisted (proj k ms) + w_extra (c_word (getc ms k))
+  = persisted (proj k ms0) + w_extra (c_word (getc ms0 k)) + sumf unbegun (tsproj k ts0) /\
+  w_readers (c_word (getc ms k)) = 0.
+Proof. exact multi_exact_at_quiescence_nogrow. Qed.
+Print Assumptions C03_multi_exact_at_quiescence_partial.
+
+Theorem C03_multi_no_nil_deref_partial : forall ms0 ts0 sched k, mgood ms0 ts0 -> reg_init ms0 -> nogrow ms0 ts0 ->
+  let '(ms, ts) := mrun sched (ms0, ts0) in
+  (k < length (ms_ctrs ms0))%nat -> Forall (fun u => crashed u = false) (tsproj k ts).
+Proof. exact multi_no_nil_deref_nogrow. Qed.
+Print Assumptions C03_multi_no_nil_deref_partial.
+
+From Coq Require Import Arith Lia.
+(* Non-vacuity: the hypotheses hold of the initial state of the registration-race
+   example above (one registered counter with 2 pending, one fresh counter, two
+   goroutines adding to the fresh counter, one rotation). *)
+Example C03_multi_example_hypotheses_hold :
+  let ms0 := minit [HAVE + 2 * XUNIT; 0] [0%nat] in
+  let ts0 := [adderM 2 1 3; adderM 2 1 2; changerM 2 NewFile] in
+  mgood ms0 ts0 /\ reg_init ms0 /\ nogrow ms0 ts0.
+Proof.
+  cbv zeta. split; [|split].
+  - unfold mgood. split; [reflexivity|]. split; [reflexivity|]. split.
+    { constructor; [left; exists 1%nat, 3; repeat split; cbn; lia|]. constructor; [left; exists 1%nat, 2; repeat split; cbn; lia|].
+      constructor; [right; exists NewFile; reflexivity|constructor]. }
+    split; [vm_compute; reflexivity|].
+    intros k Hk. cbn in Hk. destruct k as [|[|k]]; [| |lia].
+    + split; [vm_compute; split; [discriminate|reflexivity]|]. split.
+      { unfold wf. cbn. repeat split; try (intros g X; discriminate X); constructor. }
+      split; [vm_compute; reflexivity|]. unfold init_clean. cbn [proj minit getc ms_ctrs map nth s_word s_ptr s_cur c_word c_ptr ms_cur].
+      split; [reflexivity|]. split; [intros _ X; exfalso; apply X; reflexivity|]. intros _. split; vm_compute; reflexivity.
+    + split; [vm_compute; split; [discriminate|reflexivity]|]. split.
+      { unfold wf. cbn. repeat split; try (intros g X; discriminate X); constructor. }
+      split; [vm_compute; reflexivity|]. unfold init_clean. cbn [proj minit getc ms_ctrs map nth s_word s_ptr s_cur c_word c_ptr ms_cur].
+      split; [reflexivity|]. split; [intros _ X; exfalso; apply X; reflexivity|]. intros X. vm_compute in X. discriminate X.
+  - intros k Hk. cbn in Hk. destruct k as [|[|k]]; [left|right|lia]; split; reflexivity.
+  - split.
+    + unfold MW, nc. cbn. split; [reflexivity|]. split.
+      { intros j [<-|[]]. split; [lia|reflexivity]. }
+      split; [repeat constructor; intros []|]. split; [repeat constructor|reflexivity].
+    + repeat constructor; cbn; intros; try discriminate; reflexivity.
+Qed.
